@@ -3149,6 +3149,37 @@ M("a10-u16-literal-bound-too-wide", "C03", "fire A10", "src/scan.rs",
   """                                "u16" if n <= u32::MAX as u64 => {""", "u16 literals up to u32::MAX pass the scanner")
 REVERT("revert-array-literal-elements-compared", "C05", "fire S17", "259fc4b", "pre-fix tree: a re-typed array literal takes its first element's type")
 REVERT("revert-range-signed-elements", "C05", "fire S18", "98fcf78", "pre-fix tree: the Range arm re-types only for unsigned element types")
+M("s21-quiet-join-size-saturates", "C05", "quiet", "src/check.rs",
+  """    // (a.size + b.size) - 1
+    Ok(ConstExpr(
+        ConstExprEnum::Sub(
+            Box::new(ConstExpr(
+                ConstExprEnum::Add(to_const_expr(a)?, to_const_expr(b)?),
+                MetaInfo::default(),
+            )),""",
+  """    // max(a.size + b.size, 1) - 1
+    let one = ConstExpr(
+        ConstExprEnum::NumUnsigned(1, UnsignedNumType::Usize),
+        MetaInfo::default(),
+    );
+    let sum = ConstExpr(
+        ConstExprEnum::Add(to_const_expr(a)?, to_const_expr(b)?),
+        MetaInfo::default(),
+    );
+    Ok(ConstExpr(
+        ConstExprEnum::Sub(
+            Box::new(ConstExpr(
+                ConstExprEnum::Max(vec![sum, one]),
+                MetaInfo::default(),
+            )),""", "the repaired form of the known finding S21 (the suite pins the other spelling): S21 accepts it")
+M("s21-second-synthesised-difference", "C05", "fire S21", "src/check.rs",
+  """            Type::ArrayConst(_, size) => ConstExprEnum::ConstExprIdent(size.clone()),
+            Type::ArrayConstExpr(_, size) => size.0.clone(),""",
+  """            Type::ArrayConst(_, size) => ConstExprEnum::Sub(
+                Box::new(ConstExpr(ConstExprEnum::ConstExprIdent(size.clone()), MetaInfo::default())),
+                Box::new(ConstExpr(ConstExprEnum::NumUnsigned(0, UnsignedNumType::Usize), MetaInfo::default())),
+            ),
+            Type::ArrayConstExpr(_, size) => size.0.clone(),""", "another difference written by the checker (not the known one: different site key)")
 M2("s19-const-expr-array-not-split", "C05", "fire S19", [
   ("src/compile.rs", """        let const_expr_size;
 """, ""),
